@@ -39,11 +39,12 @@ macro_rules! parse_any {
             let s = s.unwrap();
             let r = Tag::from_str(s);          // must not panic for ANY string of this length
             match (&r, reference(&b)) {
-                (Ok(t), Some((g, e))) => { assert!(t.0 == g && t.1 == e); kani::cover!(true, "accepted"); }
+                (Ok(t), Some((g, e))) => { assert!(t.0 == g && t.1 == e); }
                 (Err(_), None) => { kani::cover!($n == 0 || b.first().map_or(false, |x| *x >= 0x80), "non-ASCII text (or the empty string) rejected"); }
                 (Ok(_), None) => assert!(false, "accepts a string that is none of the three forms"),
                 (Err(_), Some(_)) => assert!(false, "rejects a well-formed tag"),
             }
+            kani::cover!(r.is_ok() || !($n == 8 || $n == 9 || $n == 11), "accepted (lengths 8, 9, 11)");
             core::mem::forget(r);
         }
     };
